@@ -23,7 +23,7 @@ static std::vector<Cell> build_cells(bool thorough) {
   std::vector<Cfg> cfgs;
   if (!thorough) cfgs = {{4, 300, NMULTS - 1}, {6, 300, NMULTS - 1}, {9, 200, NMULTS - 1}, {11, 200, NMULTS - 3}};
   else cfgs = {{4, 3000, NMULTS - 1}, {5, 3000, NMULTS - 1}, {6, 3000, NMULTS - 1}, {7, 3000, NMULTS - 1}, {8, 3000, NMULTS - 1}, {9, 3000, NMULTS - 1},
-               {10, 3000, NMULTS - 1}, {11, 2000, NMULTS - 1}, {12, 1500, NMULTS - 1}, {13, 1000, NMULTS - 2}, {14, 600, NMULTS - 3}};
+               {10, 2000, NMULTS - 1}, {11, 1500, NMULTS - 1}, {12, 1000, NMULTS - 1}, {13, 800, NMULTS - 2}, {14, 600, NMULTS - 3}};
   for (int f = 0; f < F_N; ++f)
     for (auto& c : cfgs)
       for (int mi = 0; mi <= c.max_mi; ++mi) {
@@ -64,7 +64,7 @@ void run_case(uint64_t idx, Rng& r) {
   describe("mc family=" + fam + " lg_k=" + std::to_string(cell.lg_k) + " n=" + std::to_string(n) + " (" + std::to_string(MULTS[cell.mi].num) + "/" +
            std::to_string(MULTS[cell.mi].den) + " k) trials=" + std::to_string(cell.trials) + " keybase=" + std::to_string(base));
   std::vector<Trial> tr; tr.reserve(cell.trials);
-  bool any_ooo_false_union = false;
+  bool any_ooo_union = false;   // a union fed only coupon-mode sketches stays in order (HIP valid); otherwise out of order
   for (uint32_t t = 0; t < cell.trials; ++t) {
     const uint64_t kb = base + (static_cast<uint64_t>(t) << 32);
     const std::string ctx = "trial=" + std::to_string(t);
@@ -89,12 +89,12 @@ void run_case(uint64_t idx, Rng& r) {
       const Chain uc = read_chain(u);
       VF_CHECK(uc.est == tr.back().c.est && uc.lb[1] == tr.back().c.lb[1] && uc.ub[3] == tr.back().c.ub[3], fam + "|union-object-vs-result|estimate-or-bounds-differ",
                ctx + " union: " + uc.to_string() + " result: " + tr.back().c.to_string());
-      if (res.get_current_mode() == HLL && !res.is_out_of_order_flag()) any_ooo_false_union = true;
+      if (res.get_current_mode() == HLL && res.is_out_of_order_flag()) any_ooo_union = true;
     }
   }
   bool all_exact = true;
   for (auto& t : tr) all_exact = all_exact && t.exact_class;
-  const bool unioned = cell.fam >= F_HLL_UNION && !any_ooo_false_union;
+  const bool unioned = cell.fam >= F_HLL_UNION && any_ooo_union;
   // published relative standard error: hll_sketch::get_rel_err at one standard deviation (mean of both sides)
   const double rse = 0.5 * (hll_sketch::get_rel_err(false, unioned, cell.lg_k, 1) - hll_sketch::get_rel_err(true, unioned, cell.lg_k, 1));
   const std::string ctx = "family=" + fam + " lg_k=" + std::to_string(cell.lg_k) + " n=" + std::to_string(n);
